@@ -20,3 +20,22 @@ Theorem C15_lorawan_ends :
   ldro 11 7 = true /\ ldro 12 7 = true /\ ldro 12 8 = true /\ ldro 10 7 = false /\ ldro 11 8 = false /\
   ldro 12 9 = false /\ ldro 10 6 = true /\ ldro 9 4 = true /\ ldro 9 6 = false.
 Proof. exact ldro_boundary_pairs. Qed.
+
+(* ... and the drivers program the chip accordingly: on the SX127x chips the bit shares its register with other fields.
+   SX1272 (RegModemConfig1 bit 0): set_modulation_params writes exactly the decision, set_packet_params (header mode, CRC in the
+   same register) keeps it, for every register content and flag combination; SX1276 (RegModemConfig3 bit 3) likewise. *)
+From Coq Require Import NArith.
+From LoraV Require Import Model.Sx127x Proofs.LdroRegs.
+Theorem C15_sx1272_modulation_writes_ldro : forall c1 bwv crv l, (c1 < 256 -> bwv < 4 -> crv < 8 -> l < 2 ->
+  N.land (mod_c1_1272 c1 bwv crv l) 1 = l)%N.
+Proof. exact sx1272_modulation_writes_ldro. Qed.
+Theorem C15_sx1272_packet_params_keep_ldro : forall c1 im crc, (c1 < 256 ->
+  N.land (pkt_c1_1272 c1 im crc) 1 = N.land c1 1 /\ N.testbit (pkt_c1_1272 c1 im crc) 2 = im /\
+  N.testbit (pkt_c1_1272 c1 im crc) 1 = crc /\ N.land (pkt_c1_1272 c1 im crc) 0xF8 = N.land c1 0xF8)%N.
+Proof. exact sx1272_packet_params_keep_ldro. Qed.
+Theorem C15_sx1272_ldro_survives_prepare : forall c1 bwv crv l im crc, (c1 < 256 -> bwv < 4 -> crv < 8 -> l < 2 ->
+  N.land (pkt_c1_1272 (mod_c1_1272 c1 bwv crv l) im crc) 1 = l)%N.
+Proof. exact sx1272_ldro_survives_prepare. Qed.
+Theorem C15_sx1276_modulation_writes_ldro : forall c3 l, (c3 < 256 ->
+  N.testbit (mod_c3_1276 c3 l) 3 = negb (l =? 0) /\ N.land (mod_c3_1276 c3 l) 0xF3 = N.land c3 0xF3)%N.
+Proof. exact sx1276_modulation_writes_ldro. Qed.
